@@ -7,6 +7,7 @@ from vf import cmdspace as CS
 from vf import facade as F
 from vf.props import c04
 from vf.runner import Acc
+from vf.sim import registry
 from vf.spec import cdb as S
 from vf.spec import opcodes as T
 from vf.spec import responses as R
@@ -17,7 +18,7 @@ TECHNIQUE = "exhaustive enumeration of facade method x command set x every subse
 RULE = ("38 facade methods x every command set whose table offers the command x every subset of the optional keyword arguments (from "
         "inspect.signature of the command class; each supplied argument takes 2 non-default values) x caller buffers of kind bytearray / bytes / memoryview window x 2-3 well-formed device responses chosen to "
         "match the request; plus every method x set x 10 exception types raised by the device *after* it took the command (exactly one submission, the same exception object reaches the caller) (VPD page by page code, mode page by page code, PR IN data by service action, disc information by data type, READ CD "
-        "sectors by selection bits). Non-trivial = at least one optional argument supplied or a non-SPC command set; distinct = distinct (method, "
+        "sectors by selection bits); READ/WRITE(10,12,16) through the real SCSIDevice / ISCSIDevice and the stand-in bindings with transfers of {1,2,7Fh,80h,7FFFh,8000h,8001h,40000,FFFFh} blocks of 512 bytes (one submission, whole buffers, iSCSI expected transfer length = buffer length). Non-trivial = at least one optional argument supplied or a non-SPC command set; distinct = distinct (method, "
         "set, argument dict, response).")
 ASSUMPTIONS = [
     "the recording device is a plain object with opcodes/execute/close: it notes call count, a copy of the CDB, id() of both buffers and whether cmd.result was already populated, then fills data-in in place",
@@ -200,9 +201,84 @@ def run_fault(case, obs=None):
     return out
 
 
+XFER_BLOCKS = [1, 2, 0x7F, 0x80, 0x7FFF, 0x8000, 0x8001, 40000, 0xFFFF]      # x 512 bytes: up to and across 64 KiB and 16 MiB
+
+
+def run_transport(case, obs=None):
+    """the facade over the REAL device classes and the stand-in bindings: one command reaches the target, carrying the caller-visible
+    buffers whole (the binding is told the full length), and the result is what the target wrote"""
+    from vf import harness
+    _, tr, method, nblk = case
+    out = []
+    where = "%s of %d blocks over %s" % (method, nblk, tr)
+    rig = harness.Rig(tr, 0x00)
+    try:
+        marks = {}
+
+        def responder(cdb):
+            return None
+        rig.target.responder = responder
+        s = rig.facade(512)
+        n0 = len(rig.target.log)
+        del registry.iscsi_tasks[:]
+        lba = 5
+        if method.startswith("read"):
+            orig = rig.target.command
+
+            def command(cdb, dataout, datain, transport):
+                r = orig(cdb, dataout, datain, transport)
+                if datain is not None and len(datain):
+                    datain[0] = 0xA1
+                    datain[len(datain) - 1] = 0xA2
+                    marks["len"] = len(datain)
+                return r
+            rig.target.command = command
+            cmd = getattr(s, method)(lba, nblk)
+            buf, other = cmd.datain, cmd.dataout
+        else:
+            data = bytearray(nblk * 512)
+            data[0], data[-1] = 0xB1, 0xB2
+            cmd = getattr(s, method)(lba, nblk, data)
+            buf, other = cmd.dataout, cmd.datain
+            if buf is not data:
+                out.append(("transport/caller_buffer", "%s: the command does not carry the caller's buffer" % where))
+        new = rig.target.log[n0:]
+        if len(new) != 1:
+            out.append(("transport/submissions", "%s: %d commands reached the target" % (where, len(new))))
+            return out
+        rec = new[0]
+        want = nblk * 512
+        if method.startswith("read"):
+            if rec["datain_id"] != id(cmd.datain) or rec["datain_len"] != want or len(cmd.datain) != want:
+                out.append(("transport/datain", "%s: the target was given a data-in buffer of %r bytes (same object: %s), the request covers %d"
+                            % (where, rec["datain_len"], rec["datain_id"] == id(cmd.datain), want)))
+            elif (cmd.datain[0], cmd.datain[-1]) != (0xA1, 0xA2):
+                out.append(("transport/result", "%s: first/last byte written by the device do not show in the command's data-in buffer" % where))
+        else:
+            if rec["dataout_id"] != id(cmd.dataout) or len(rec["dataout"]) != want or rec["dataout"][:1] + rec["dataout"][-1:] != b"\xb1\xb2":
+                out.append(("transport/dataout", "%s: the target was given %d bytes of data-out (same object: %s), the request covers %d"
+                            % (where, len(rec["dataout"]), rec["dataout_id"] == id(cmd.dataout), want)))
+        if tr == "iscsi":
+            if len(registry.iscsi_tasks) != 1:
+                out.append(("transport/iscsi_tasks", "%s: %d iSCSI tasks" % (where, len(registry.iscsi_tasks))))
+            else:
+                t = registry.iscsi_tasks[0]
+                wd = (1, want) if method.startswith("read") else (2, want)
+                if (t["dir"], t["xferlen"]) != wd:
+                    out.append(("transport/iscsi_xferlen", "%s: iSCSI task direction/expected transfer length %r, the buffers hold %r"
+                                % (where, (t["dir"], t["xferlen"]), wd)))
+        if obs is not None:
+            obs.append((rec["cdb"].hex(), want))
+    finally:
+        rig.close()
+    return out
+
+
 def run_case(case, obs=None):
     if case[0] == "fault":
         return run_fault(case, obs)
+    if case[0] == "transport":
+        return run_transport(case, obs)
     method, st, kwj, variant = case
     name, key, base_args = F.FACADE[method]
     from pyscsi.pyscsi.scsi import SCSI
@@ -331,11 +407,25 @@ def replay(case):
 
 
 def partitions(tier):
-    return [[m] for m in F.FACADE]
+    return [[m] for m in F.FACADE] + [["transport", tr, m] for tr in ("sgio", "iscsi") for m in ("read10", "read12", "read16", "write10", "write12", "write16")]
 
 
 def run_partition(part, tier, seed):
     acc = Acc(seed)
+    if part[0] == "transport":
+        for nblk in XFER_BLOCKS:
+            case = ["transport", part[1], part[2], nblk]
+            acc.case(case, nontrivial=nblk > 1, key=repr(case))
+            obs = []
+            try:
+                v = run_case(case, obs)
+            except Exception:
+                import traceback
+                v = [("harness_error", traceback.format_exc()[-600:])]
+            for k, w in v:
+                acc.violation(k, w, case)
+            acc.outcome((repr(case), tuple(obs), tuple(k for k, _ in v)))
+        return acc
     method = part[0]
     opts = optional_params(method)
     extra_req = []
